@@ -1213,6 +1213,7 @@ func (c *Compiler) optimizeFunc(node parser.Node) {
 	iterateInstructions(c.scopes[c.scopeIndex].Instructions,
 		func(pos int, opcode parser.Opcode, operands []int) bool {
 			switch {
+			case verifOn && verifNoDCE:
 			case dsts[pos]:
 				dstIdx++
 				deadCode = false
